@@ -905,6 +905,11 @@ class ChannelStats:
             - "basic" : Compute the moments upto 2nd order (variance).
             - "full" : Compute the moments upto 4th order (kurtosis).
         """
+        # The moments are accumulated in single precision: reduce a double-precision
+        # block to it first, so that a sample and the running mean are compared in the
+        # same precision (a constant channel must keep zero variance).
+        if array.dtype == np.float64:
+            array = array.astype(np.float32)
         if mode == "basic":
             kernels.compute_online_moments_basic(
                 array,
